@@ -14,7 +14,7 @@ RULE = ('random circuits x stimuli; every case compares a reference configuratio
         'KV.C06.strip_equiv / strip_equiv_polind / strip_equiv_all_circuits on the real pair of runs (certificate stripOkB and stripOps = real '
         'stripped rows through the Lean driver; Net.wfB, orderOKB, forksOKB of the real circuit and order, model stemList = real branch->stem map; zero delay on fork inputs, capacities, polarity independence, monotone stems numerically) and, '
         'on every lane where they hold, require equal waveforms on every non-branch signal and branch(un-stripped) = stem(stripped). '
-        'clause path-tie (correspondence, harness/pathtie.py): the Lean models of both code paths of s_to_c / s_ppo_to_ppi / the capture scan '
+        'clause path-tie (correspondence, harness/pathtie.py): the Lean models of both code paths of c_prop (clause path-tie-cprop) / s_to_c / s_ppo_to_ppi / the capture scan '
         '(Model/WaveIO.lean) against the REAL WaveSim (NumPy) and WaveSimCuda (kernels under MockCuda) on random tables (incl. flip-flops without '
         'outputs: c_locs = -1), values off {0,1}, random previous memory contents and block shapes: raw arrays must be equal cell by cell. '
         'distinct = (circuit, clause, seeds)')
@@ -386,7 +386,7 @@ def run(ck):
     if ck.broken and not ck.violations: oracle(ck, n * 4, ck.tier == 'thorough')
     ck.assumptions += ['GPU-kernel code path = the cuda.jit kernels executed by MockCuda (no CUDA device here)',
                        'delay data-set mode 2 (pseudo-random pick) is not part of the statement; modes 0/1 incl. mixed per-lane modes and out-of-range indices: the index the real _wave_eval applies to delays is compared per lane with WaveIO.selectDataset (driver wio-dataset, tag tie-dataset)',
-                       'WaveSim lanes / c_prop(sims=k) / lane permutation / data set per lane / reuse: theorems cprop_first_k, cprop_lane_position, cprop_lane_permutation, dataset_lane(_select), wave_reuse_irrelevant about the models (Model/WaveIO.lean cpuCProp with ANY evaluator function; C03 memory model); the real runs are compared by the cross-configuration oracle; whole propagation cpuCProp/gpuCProp on raw arrays is NOT tied by a driver command (the evaluator _wave_eval is tied in C03, the launch in C07, accumulation in C13), s_to_c / s_ppo_to_ppi / capture scan / whole c_to_s ARE (clause path-tie, driver wio-*), and the table hypotheses of the whole-array theorems are evaluated by the driver (wio-hyp)']
+                       'WaveSim lanes / c_prop(sims=k) / lane permutation / data set per lane / reuse: theorems cprop_first_k, cprop_lane_position, cprop_lane_permutation, dataset_lane(_select), wave_reuse_irrelevant about the models (Model/WaveIO.lean cpuCProp with ANY evaluator function; C03 memory model); the real runs are compared by the cross-configuration oracle; whole propagation cpuCProp / gpuCProp (evWave with the per-lane data set cfgSel, accAdd) IS run by the driver on the raw memory, op / level tables, c_locs / c_caps, delays and simctl of real WaveSim / WaveSimCuda objects (clause path-tie-cprop, driver wio-cprop: the waveform every region reads as and every accumulator, every lane, c_prop(sims=k), cells behind terminators not compared), s_to_c / s_ppo_to_ppi / capture scan / whole c_to_s likewise cell by cell (clause path-tie, driver wio-*), and the table hypotheses of the whole-array theorems are evaluated by the driver (wio-hyp)']
     return ck.finish(RULE)
 
 
@@ -395,6 +395,11 @@ def replay(rep):
         w = pathtie.finding_witness()
         print(json.dumps({'ok': w is None, 'observed': {'difference': w}, 'expected': {'difference': None}}))
         return 0 if w is None else 1
+    if rep['input'].get('clause') == 'path-tie-cprop':
+        broken, _, diff = pathtie.cprop_case(rep['input']['seed'])
+        ok = not broken and diff is None
+        print(json.dumps({'ok': ok, 'observed': diff if diff is not None else {'broken-correspondence': broken}, 'expected': {'equal': 'both code paths'} if diff is not None else None}, default=str))
+        return 0 if ok else 1
     if rep['input'].get('clause') == 'path-tie':
         broken, _ = pathtie.eval_case(rep['input'])
         print(json.dumps({'ok': not broken, 'observed': {'broken-correspondence': broken}, 'expected': None}, default=str))
